@@ -125,7 +125,7 @@ func (m *machine) offerInvalid(t *rapid.T) {
 	if err != nil {
 		m.fail("build: %v", err)
 	}
-	owner := node.KeyByAddr(b.Header.GeneratorAddress)
+	owner := n.SignerFor(b.Header.Height, node.KeyByAddr(b.Header.GeneratorAddress))
 	kind := rapid.SampledFrom([]string{"stateRoot", "eventRoot", "signature", "mhp", "validatorsHash", "failCommit"}).Draw(t, "invalidKind")
 	switch kind {
 	case "stateRoot":
@@ -298,7 +298,7 @@ func (m *machine) sibling(t *rapid.T) {
 			sib.Header.StateRoot = flip(sib.Header.StateRoot)
 		}
 	}
-	node.Resign(sib, signer)
+	node.Resign(sib, n.SignerFor(sib.Header.Height, signer))
 	if bytes.Equal(sib.Header.ID, tip.Header.ID) {
 		t.Skip("identical")
 	}
@@ -437,7 +437,7 @@ func runMachine(t *rapid.T) {
 	}
 	cfg.GenesisTS = n.Cfg.GenesisTS
 	m := &machine{n: n, t: t, finalID: map[uint32][]byte{}, afterRise: map[string]bool{}, labels: map[string]bool{}, fs: fs, cfg: cfg,
-		opts: node.GenOpts{MaxTxs: 2, AllowChange: true, AllowAgg: true, AllowStandby: true}}
+		opts: node.GenOpts{MaxTxs: 2, AllowChange: true, AllowAgg: true, AllowStandby: true, AllowRotate: true}}
 	defer func() { m.n.Close() }()
 	m.invariant("init")
 	disturbedAfterRise := false
